@@ -24,10 +24,11 @@ def configs(tier):
         ('extend: root children 3docs x 2slots with element forms', dict(family='root_level', fam_kw=dict(docs=3, slots=2, attrs=0, text=False, pool=3))),
         ('children 4occ x 2slots', dict(family='one_level', fam_kw=dict(occ=4, slots=2, attrs=0, text=False, leaf_form=False, pool=3))),
         ('children 3occ x 3slots', dict(family='one_level', fam_kw=dict(occ=3, slots=3, attrs=0, text=False, leaf_form=False, pool=3))),
-        ('attributes 4occ x 3attrs', dict(family='one_level', fam_kw=dict(occ=4, slots=0, attrs=3, text=False, pool=3))),
+        ('attributes 4occ x 2attrs', dict(family='one_level', fam_kw=dict(occ=4, slots=0, attrs=2, text=False, pool=3))),
+        ('attributes 3occ x 3attrs', dict(family='one_level', fam_kw=dict(occ=3, slots=0, attrs=3, text=False, pool=3, p_form=False))),
         ('everything 2occ x 2slots', dict(family='one_level', fam_kw=dict(occ=2, slots=2, attrs=1, text=True, pool=2))),
         ('extend: root children 4docs x 2slots', dict(family='root_level', fam_kw=dict(docs=4, slots=2, attrs=0, text=False, pool=2, leaf_form=False))),
-        ('rendered schema 3occ x 2slots (serde_xml_rs)', dict(family='one_level', fam_kw=dict(occ=3, slots=2, attrs=1, text=True, leaf_form=False, pool=2), render='serde_xml_rs')),
+        ('rendered schema 3occ x 2slots (serde_xml_rs)', dict(family='one_level', fam_kw=dict(occ=3, slots=2, attrs=0, text=True, leaf_form=False, p_form=False, pool=2), render='serde_xml_rs')),
     ]
     return t
 
